@@ -16,7 +16,7 @@ OWNED = {"double-delivery", "delivered-after-ack", "duplicated", "phantom-delive
 def holders_case(draw, broker):
     ncons = draw(st.integers(2, 4))
     clients = ["c0"] if broker == "mem" else ["c0", "c1", "c2"]
-    if broker != "mem" and draw(st.integers(0, 2)) == 0:
+    if broker != "mem" and draw(st.integers(0, 2 if broker == "redis" else 1)) == 0:
         clients = ["c0"]  # every consumer in one process (one broker object): what one holds the other can see in shared tables
     ops = []
     nmsg = 0
@@ -64,7 +64,13 @@ def holders_case(draw, broker):
         for c in range(ncons):
             ops.append({"op": "launch", "c": c})
         ops.append({"op": "collect", "patience": 0.8})
-    if broker != "mem" and draw(st.booleans()):
+    if draw(st.integers(0, 2)) == 0:
+        # a holder replaces its message (requeue), takes what comes next and acknowledges it
+        burst(1)
+        k = draw(st.integers(0, ncons - 1))
+        ops += [{"op": "consume", "c": k, "patience": 0.5}, {"op": "requeue", "c": k, "i": 0},
+                {"op": "consume", "c": k, "patience": 0.5}, {"op": "ack", "c": k, "i": 0}]
+    if broker != "mem" and (draw(st.booleans()) or broker == "amqp"):
         # epilogue: every process goes away without cleanup (connections lost), later a new one drains the queue.  Whatever was
         # acknowledged must not come back; a delivery left unsettled behind the client's back ("ghost") surfaces here
         for c in range(3):
